@@ -6,9 +6,6 @@
 #include "modules/xrespond/env.h"
 #include "modules/xrespond/spec.h"
 #include "modules/respond/spec.h"
+#include "modules/xrespond/mem_ghost.h"
 size_t g_len0, g_off0, g_cap0; /* ghosts: pre-state body geometry (BT_BODY_GHOSTS) */
 nni_aio *g_raio; /* ghost: the pending receive aio of the first waiting context */
-#ifdef VP_EXPERIMENT_NOMEMCPY
-#undef memcpy
-#define memcpy(d, s, n) ((void) (d), (void) (s), (void) (n))
-#endif
